@@ -45,7 +45,7 @@ fn val_types(ch: &mut Ch, n: usize) -> Vec<ValType> {
 pub fn apply(m: &mut Module, ch: &mut Ch, n: usize) -> Vec<String> {
     let mut log = Vec::new();
     for i in 0..n {
-        let k = ch.below(16);
+        let k = ch.below(18);
         match k {
             0 => {
                 // add a function built with the builder, export it
@@ -294,6 +294,96 @@ pub fn apply(m: &mut Module, ch: &mut Ch, n: usize) -> Vec<String> {
                         }
                         log.push(format!("insert-block-typed-like-the-function-results({})", results.len()));
                     }
+                }
+            }
+            15 => {
+                // a loop with a result whose body branches back to the loop
+                // itself (valid for a loop: its label takes the parameters;
+                // for a block the label would take the result), via loop_at
+                let locals: Vec<FunctionId> = m.funcs.iter_local().map(|(id, _)| id).collect();
+                if !locals.is_empty() {
+                    let f = *ch.pick(&locals);
+                    let ty = InstrSeqType::new(&mut m.types, &[], &[ValType::I32]);
+                    let lf = m.funcs.get_mut(f).kind.unwrap_local_mut();
+                    let mut b = lf.builder_mut().func_body();
+                    b.loop_at(0, ty, |bb| {
+                        let me = bb.id();
+                        bb.br(me);
+                    });
+                    b.drop_at(1);
+                    log.push("insert-self-branching-loop".into());
+                }
+            }
+            16 => {
+                // redirect every reference to a local function to a new
+                // function of the same type (instructions through a mutable
+                // traversal), then delete the old one
+                let locals: Vec<FunctionId> = m.funcs.iter_local().map(|(id, _)| id).collect();
+                if !locals.is_empty() {
+                    let old = *ch.pick(&locals);
+                    let ty = m.funcs.get(old).ty();
+                    let (params, results) = (m.types.params(ty).to_vec(), m.types.results(ty).to_vec());
+                    let args: Vec<LocalId> = params.iter().map(|t| m.locals.add(*t)).collect();
+                    let mut fb = FunctionBuilder::new(&mut m.types, &params, &results);
+                    {
+                        let mut body = fb.func_body();
+                        for t in &results {
+                            push_default(&mut body, *t, 21);
+                        }
+                    }
+                    let new = fb.finish(args, &mut m.funcs);
+                    struct Redirect(FunctionId, FunctionId);
+                    impl VisitorMut for Redirect {
+                        fn visit_function_id_mut(&mut self, f: &mut FunctionId) {
+                            if *f == self.0 {
+                                *f = self.1;
+                            }
+                        }
+                    }
+                    for (_, lf) in m.funcs.iter_local_mut() {
+                        let entry = lf.entry_block();
+                        dfs_pre_order_mut(&mut Redirect(old, new), lf, entry);
+                    }
+                    for e in m.exports.iter_mut() {
+                        if let ExportItem::Function(f) = &mut e.item {
+                            if *f == old {
+                                *f = new;
+                            }
+                        }
+                    }
+                    for e in m.elements.iter_mut() {
+                        match &mut e.items {
+                            ElementItems::Functions(v) => {
+                                for f in v.iter_mut() {
+                                    if *f == old {
+                                        *f = new;
+                                    }
+                                }
+                            }
+                            ElementItems::Expressions(_, v) => {
+                                for x in v.iter_mut() {
+                                    if let ConstExpr::RefFunc(f) = x {
+                                        if *f == old {
+                                            *f = new;
+                                        }
+                                    }
+                                }
+                            }
+                        }
+                    }
+                    let gids: Vec<GlobalId> = m.globals.iter().map(|g| g.id()).collect();
+                    for g in gids {
+                        if let GlobalKind::Local(ConstExpr::RefFunc(f)) = &mut m.globals.get_mut(g).kind {
+                            if *f == old {
+                                *f = new;
+                            }
+                        }
+                    }
+                    if m.start == Some(old) {
+                        m.start = Some(new);
+                    }
+                    m.funcs.delete(old);
+                    log.push("redirect-and-delete-function".into());
                 }
             }
             _ => {
